@@ -377,7 +377,7 @@ func c06Check(strat workload.Strategy, pathAware bool, r0 map[string]interface{}
 				}
 				twinSeen[code] = true
 			}
-			if f.Kind == workload.FaultGGQLError || f.Kind == workload.FaultWrapGGQL || f.Kind == workload.FaultOwnPath {
+			if f.Kind == workload.FaultGGQLError || f.Kind == workload.FaultWrapGGQL || f.Kind == workload.FaultOwnPath || f.Kind == workload.FaultOverGroup {
 				ext, _ := m["extensions"].(map[string]interface{})
 				if ext == nil || ext["code"] != "E"+strconv.Itoa(f.N) {
 					return "extensions_lost", fmt.Sprintf("failure at %s carried extensions {code: E%d}, the entry has %v", f.Path, f.N, m["extensions"])
@@ -482,7 +482,7 @@ func stripFrag(p []interface{}) []interface{} {
 }
 
 var c06Kinds = []string{workload.FaultError, workload.FaultGGQLError, workload.FaultErrorGroup, workload.FaultBadLeaf,
-	workload.FaultGroupExt, workload.FaultNestedGrp, workload.FaultBadList, workload.FaultTwinGroup, workload.FaultWrapGroup, workload.FaultWrapGGQL, workload.FaultOwnPath, workload.FaultTypedNil}
+	workload.FaultGroupExt, workload.FaultNestedGrp, workload.FaultBadList, workload.FaultTwinGroup, workload.FaultWrapGroup, workload.FaultWrapGGQL, workload.FaultOwnPath, workload.FaultTypedNil, workload.FaultOverGroup}
 
 // runSubscription is the subscription family of C06: a subscription operation
 // whose root fields the subscription resolver accepts or refuses (a plain error
